@@ -1,6 +1,8 @@
 package rpc
 
 import (
+	"context"
+	"errors"
 	"fmt"
 
 	"go.miragespace.co/specter/spec/chord"
@@ -14,6 +16,19 @@ func GetErrorMeta(err twirp.Error) (cause, kv string) {
 	return
 }
 
+// wireMessage is the message the caller uses to recognise the error again (chord.ErrorMapper matches
+// on it): for a wrapped DHT error that is the message of the DHT error itself, not of the wrapper.
+func wireMessage(err error) string {
+	var chordErr *chord.Error
+	if errors.As(err, &chordErr) {
+		return chordErr.Error()
+	}
+	if errors.Is(err, context.DeadlineExceeded) {
+		return context.DeadlineExceeded.Error()
+	}
+	return err.Error()
+}
+
 func WrapError(err error) error {
 	var code twirp.ErrorCode
 	if chord.ErrorIsRetryable(err) {
@@ -21,8 +36,9 @@ func WrapError(err error) error {
 	} else {
 		code = twirp.Internal
 	}
-	twerr := twirp.NewError(code, err.Error())
+	twerr := twirp.NewError(code, wireMessage(err))
 	twerr = twerr.WithMeta("cause", fmt.Sprintf("%T", err)) // to easily tell apart wrapped internal errors from explicit ones
+	twerr = twerr.WithMeta("detail", err.Error())
 	return twirp.WrapError(twerr, err)
 }
 
@@ -33,8 +49,9 @@ func WrapErrorKV(key string, err error) error {
 	} else {
 		code = twirp.Internal
 	}
-	twerr := twirp.NewError(code, err.Error())
+	twerr := twirp.NewError(code, wireMessage(err))
 	twerr = twerr.WithMeta("cause", fmt.Sprintf("%T", err)) // to easily tell apart wrapped internal errors from explicit ones
 	twerr = twerr.WithMeta("kv", key)
+	twerr = twerr.WithMeta("detail", err.Error())
 	return twirp.WrapError(twerr, err)
 }
